@@ -57,6 +57,12 @@ Definition set_vote (who opt : Z) (vs : list (Z * Z)) : list (Z * Z) :=
   (who, opt) :: filter (fun v => negb (fst v =? who)) vs.
 Definition get_vote (who : Z) (vs : list (Z * Z)) : option Z :=
   option_map snd (find (fun v => fst v =? who) vs).
+(* x/recovery address rotation: GetVote(old); DeleteVote; Voter = new; SaveVote -- the person's vote
+   moves to the new address (overwriting a vote stored there) *)
+Definition rename_vote (old new : Z) (vs : list (Z * Z)) : list (Z * Z) :=
+  match get_vote old vs with
+  | Some o => set_vote new o (filter (fun v => negb (fst v =? old)) vs)
+  | None => vs end.
 
 (* queue keys (time, id), iterated in key order *)
 Definition key_ltb (a b : Z * Z) : bool := (fst a <? fst b) || ((fst a =? fst b) && (snd a <? snd b)).
@@ -92,13 +98,14 @@ Record params (A content ext : Type) := mkParams {
   min_enact_blocks : A -> Z;
   handler : content -> A -> outcome A;          (* ProposalHandler.Apply *)
   ext_step : ext -> A -> A;                     (* anything else that happens on the chain *)
+  rotate_app : Z -> Z -> A -> A;                (* address rotation outside the lifecycle (actor record, permissions) *)
   decide : tally -> vresult;                    (* CalculatedVotes.ProcessResult *)
   quorum_error_panics : bool }.                 (* processProposal: IsQuorum error => panic (true) or quorum not reached (false) *)
 Arguments valid_basic {A content ext}. Arguments can_propose {A content ext}. Arguments is_active {A content ext}.
 Arguments has_vote_perm {A content ext}. Arguments nvoters {A content ext}. Arguments nveto {A content ext}.
 Arguments quorum_of {A content ext}. Arguments end_secs {A content ext}. Arguments enact_secs {A content ext}.
 Arguments min_end_blocks {A content ext}. Arguments min_enact_blocks {A content ext}. Arguments handler {A content ext}.
-Arguments ext_step {A content ext}. Arguments decide {A content ext}. Arguments quorum_error_panics {A content ext}.
+Arguments ext_step {A content ext}. Arguments rotate_app {A content ext}. Arguments decide {A content ext}. Arguments quorum_error_panics {A content ext}.
 
 Section Records.
 Variables (A content : Type).
@@ -111,7 +118,8 @@ Inductive event :=
 | EvSubmit (id : Z) (p : proposal) (c : ctx)
 | EvVote (id who opt : Z) (c : ctx) (a : A)
 | EvFinal (id : Z) (res : vresult) (tl : tally) (nv q mine : Z) (c : ctx) (a : A)
-| EvApply (id : Z) (ok : bool) (c : ctx) (a a' : A).
+| EvApply (id : Z) (ok : bool) (c : ctx) (a a' : A)
+| EvRotate (old new : Z) (c : ctx).
 
 Record state := mkS {
   app : A;
@@ -126,7 +134,7 @@ Definition init (a : A) : state := mkS a (fun _ => None) (fun _ => []) [] [] 1 [
 End Records.
 Arguments mkP {content}. Arguments p_content {content}. Arguments p_submit {content}. Arguments p_vend {content}.
 Arguments p_eend {content}. Arguments p_minv {content}. Arguments p_mine {content}. Arguments p_result {content}. Arguments p_exec {content}.
-Arguments EvSubmit {A content}. Arguments EvVote {A content}. Arguments EvFinal {A content}. Arguments EvApply {A content}.
+Arguments EvSubmit {A content}. Arguments EvVote {A content}. Arguments EvFinal {A content}. Arguments EvApply {A content}. Arguments EvRotate {A content}.
 Arguments mkS {A content}. Arguments app {A content}. Arguments props {A content}. Arguments votes {A content}.
 Arguments activeq {A content}. Arguments enactq {A content}. Arguments next_id {A content}. Arguments log {A content}.
 Arguments init {A content}.
@@ -135,8 +143,9 @@ Inductive op (content ext : Type) :=
 | OSubmit (who : Z) (ct : content)
 | OVote (who id opt : Z)
 | OEndBlock
-| OExt (e : ext).
-Arguments OSubmit {content ext}. Arguments OVote {content ext}. Arguments OEndBlock {content ext}. Arguments OExt {content ext}.
+| OExt (e : ext)
+| ORotate (old new : Z).   (* MsgRotateRecoveryAddress / RotateValidatorByHalfRRTokenHolder *)
+Arguments OSubmit {content ext}. Arguments OVote {content ext}. Arguments OEndBlock {content ext}. Arguments OExt {content ext}. Arguments ORotate {content ext}.
 
 Section Gov.
 Variables (A content ext : Type).
@@ -233,6 +242,9 @@ Definition step (c : ctx) (o : op content ext) (s : state) : outcome state :=
   | OVote who id opt => vote c who id opt s
   | OEndBlock => end_block c s
   | OExt e => Ok (mkS ((ext_step P) e (app s)) (props s) (votes s) (activeq s) (enactq s) (next_id s) (log s))
+  | ORotate old new =>
+      Ok (mkS ((rotate_app P) old new (app s)) (props s) (fun id => rename_vote old new (votes s id)) (activeq s) (enactq s)
+              (next_id s) (EvRotate old new c :: log s))
   end.
 
 (* a rejected message changes nothing; a panic (which would halt a real node, property C06) is
